@@ -102,6 +102,7 @@ def check(ctx: Ctx) -> None:
     proj = ctx.proj
     ctx.rule('C08.R1', 'escape set of the evaluation entry points (fixed point over the call graph with the raising-primitive table)', floor=6)
     ctx.rule('C08.R2', 'each external evaluation site inside an item loop lies in a try within that loop body whose handlers cover the escape set and do not re-raise', floor=10)
+    ctx.rule('C08.R4', 'an evaluation result that may be a live generator is never iterated outside the evaluator (its body would run, and fail, outside the ExpressionError guard)', floor=1)
     ctx.rule('C08.R3', 'no expression-caused exception class escapes normalize_merchant / classify_by_sections towards the row and source handlers', floor=4)
     E = get_escapes(proj)
     epm = proj.module(EP)
@@ -126,6 +127,12 @@ def check(ctx: Ctx) -> None:
                 _check_site(ctx, E, f, call, target)
     ctx.count('call_sites', n_sites)
     ctx.need(not (n_sites < 11), f'C08.R2: {n_sites} evaluation sites found, 13 were confirmed by hand (floor 11)')
+
+    # R4: lazily evaluated results are not consumed outside the evaluator's guard
+    r4_lazy(ctx)
+    # a failing view variable makes that variable None; it does not decide membership
+    from .c10 import view_verdict
+    view_verdict(ctx, 'C08.R2')
 
     # R3: boundaries
     for qn, seen_from in [('merchant_utils.normalize_merchant', 'parsers.parse_generic_csv (row handler)'),
@@ -173,6 +180,19 @@ def _check_site(ctx: Ctx, E: Escapes, f: FuncInfo, call: ast.Call, target: FuncI
                 for k in caught:
                     del remaining[k]
                 used.append(f'except {types}')
+    # per-item containment: a handler inside the item loop must go on with the next item
+    if loop is not None:
+        for t in tries:
+            if not any(a is loop for a in ancestors(t)):
+                continue
+            for h in t.handlers:
+                for n in ast.walk(ast.Module(body=h.body, type_ignores=[])):
+                    inner_loops = [a for a in ancestors(n) if isinstance(a, (ast.For, ast.While))]
+                    if isinstance(n, ast.Break) and (not inner_loops or inner_loops[0] is loop) or \
+                            (isinstance(n, ast.Return) and f.name not in ('evaluate_section_filter',)):
+                        ctx.fail('C08.R2', f, f'{label}:handler-exit',
+                                 f'the handler around {src(call.func)}(...) (line {h.lineno}) leaves the item loop with `{src(n)[:30]}`: one item that cannot be evaluated '
+                                 f'makes every later rule / transform / tag inapplicable too, instead of just itself', n)
     if not remaining:
         ctx.ok('C08.R2', f, f'{src(call.func)} at line {call.lineno}: escape set {sorted(esc)} covered by {used}', call, label)
     else:
@@ -181,3 +201,75 @@ def _check_site(ctx: Ctx, E: Escapes, f: FuncInfo, call: ast.Call, target: FuncI
                  f'{src(call.func)}(...) at line {call.lineno} can raise {sorted(remaining)} which the enclosing handlers {used or "(none)"} '
                  f'do not catch: evaluation failure aborts the caller instead of skipping the item; e.g. {k0} <- {remaining[k0]} '
                  f'(expression such as `{WITNESS.get(k0, "?")}`)', call)
+
+
+ITER_CALLS = {'list', 'tuple', 'set', 'sorted', 'sum', 'any', 'all', 'min', 'max', 'next', 'len', 'join', 'extend', 'update', 'frozenset', 'enumerate', 'zip', 'map', 'filter'}
+EVAL_CALL_ATOMS = {'call:evaluate_transaction', 'call:evaluate_transaction_ast', 'call:evaluate', 'call:evaluate_ast'}
+
+
+def _produces_generators(proj) -> bool:
+    """Can a public evaluation entry point hand a live generator to its caller?  (see C03.R9)"""
+    te = proj.cls(f'{EP}.TransactionEvaluator')
+    gen = False
+    for m in te.methods.values():
+        if m.name.startswith('_eval_'):
+            for r in ast.walk(m.node):
+                if isinstance(r, ast.Return) and isinstance(r.value, ast.Call) and isinstance(r.value.func, ast.Name):
+                    sub = proj.funcs.get(f'{m.qualname}.{r.value.func.id}')
+                    if sub is not None and any(isinstance(x, (ast.Yield, ast.YieldFrom)) for x in ast.walk(sub.node)):
+                        gen = True
+                if isinstance(r, ast.Return) and isinstance(r.value, ast.GeneratorExp):
+                    gen = True
+    if not gen:
+        return False
+    for en in ('evaluate_transaction',):
+        fe = proj.func(f'{EP}.{en}')
+        text = ' '.join(src(n) for n in ast.walk(fe.node) if isinstance(n, ast.Call))
+        if 'GeneratorType' in text or 'isgenerator' in text:
+            return False
+        for n in ast.walk(fe.node):
+            if isinstance(n, ast.Call) and isinstance(n.func, ast.Name) and n.func.id in fe.module.functions:
+                h = fe.module.functions[n.func.id]
+                if any('Generator' in src(x) for x in ast.walk(h.node) if isinstance(x, ast.Call) and call_name(x) in ('isinstance', 'isgenerator')):
+                    return False
+    return True
+
+
+def r4_lazy(ctx: Ctx) -> None:
+    proj = ctx.proj
+    if not _produces_generators(proj):
+        ctx.ok('C08.R4', f'{EP}.evaluate_transaction', 'evaluation entry points never return a live generator', construct='lazy:none')
+        return
+    n = 0
+    for modname in SITE_MODULES:
+        mi = proj.module(modname)
+        for f in [x for x in proj.all_funcs() if x.module is mi]:
+            fl = get_flow(proj, f)
+            for node in all_nodes(f.node):
+                it = None
+                if isinstance(node, ast.For):
+                    it = node.iter
+                elif isinstance(node, ast.comprehension):
+                    it = node.iter
+                elif isinstance(node, ast.Call) and call_name(node) in ITER_CALLS and node.args and not (isinstance(node.func, ast.Attribute) and call_name(node) == 'join' and False):
+                    it = node.args[0]
+                if it is None or not isinstance(it, ast.Name):
+                    continue
+                anchor = node if not isinstance(node, ast.comprehension) else it
+                if not fl.cfg.has(anchor):
+                    continue
+                at = fl.atoms(it, anchor)
+                if not (at & EVAL_CALL_ATOMS):
+                    continue
+                n += 1
+                st = fl.stmt_of(anchor)
+                lits = fl.cfg.guard_literals(st)
+                nm = it.id
+                # accepted: the value is known to be a materialised container
+                ok = any(tr and t.replace(' ', '') in (f'isinstance({nm},list)', f'isinstance({nm},(list,tuple))', f'isinstance({nm},(list,tuple,set))',
+                                                        f'isinstance({nm},tuple)', f'isinstance({nm},(list,set))') for t, tr in lits)
+                ctx.check(ok, 'C08.R4', f, f'lazy-iter:{nm}', f'{nm} is iterated only when it is a materialised list',
+                          f'`{src(node)[:60]}` iterates the evaluation result {nm} under {sorted(t for t, tr in lits if nm in t)}: a generator-expression result is evaluated lazily here, '
+                          f'outside the evaluator\'s guard — a TypeError/AttributeError in its element expression escapes `except ExpressionError` and aborts classification', node)
+    if n == 0:
+        ctx.ok('C08.R4', 'merchant_engine', 'no consumer iterates an evaluation result', construct='lazy:none')
